@@ -14,11 +14,15 @@
    still without pod CIDRs was processed, in a state that differs from the final one in search cursors only, and refused
    there, i.e. no entry offered for its labels had room (C05).  A round in which something is servable serves at least
    one node (the count strictly decreases); a round that serves nobody changes no used set.
-   Not proved: the same for arbitrary (non-quiet) starting worlds and real queue order -- fairness is represented by the
-   round schedule, the rate limiter by Tick; the ClusterCIDR-deletion half as a measure (its step is proved);
+   And from ANY world reached by a history without node relists in which the controller and the informers run and no node
+   is being deleted (Coh_proofs.v): informer coherence -- replaying the pending node notifications onto the node store
+   yields exactly the API objects -- is an invariant of every such history, so delivering the pending notifications makes
+   the world quiet, and the rounds converge from there.
+   Not proved: real queue order -- fairness is represented by the round schedule, the rate limiter by Tick; node relists
+   (they permute the store); nodes being deleted; the ClusterCIDR-deletion half as a measure (its step is proved);
    fairness and timing of the real rate limiter are represented only by Tick.
    Recorded residue: K-AMB. *)
-From NIPAM Require Import Sys Alloc_proofs Sys_proofs Inv_proofs World_proofs Complete_proofs Path_proofs NoPanic_proofs Progress_proofs Conv_proofs Term_proofs.
+From NIPAM Require Import Sys Alloc_proofs Sys_proofs Inv_proofs World_proofs Complete_proofs Path_proofs NoPanic_proofs Progress_proofs Conv_proofs Coh_proofs Term_proofs.
 From Coq Require Import Lia.
 Open Scope N_scope.
 
@@ -119,3 +123,26 @@ Proof.
   - vm_compute. repeat constructor; cbn; intuition discriminate.
   - intros a Ha. vm_compute in Ha. destruct Ha as [<-|[<-|[<-|[]]]]; reflexivity.
 Qed.
+
+(* ---------- informer coherence and convergence from any running world ---------- *)
+Theorem C11_informer_coherence_in_every_history_without_node_relist :
+  forall po lab ops, Forall coh_op ops ->
+  let w := run po lab init_world ops in
+  NoDup (map an_name (w_nodes w)) /\
+  (w_synced w = true -> replay_n (w_ncache w) (w_nfeed w) = map node_view (w_nodes w)).
+Proof. intros po lab ops H w. pose proof (run_coh po lab ops init_world coh_init H) as C. split; [exact (co_names _ C)|exact (co_sync _ C)]. Qed.
+Print Assumptions C11_informer_coherence_in_every_history_without_node_relist.
+
+Theorem C11_convergence_from_any_running_world :
+  forall po lab ops, Forall wf_op ops -> Forall coh_op ops ->
+  let w := run po lab init_world ops in
+  w_synced w = true -> (exists m, w_ctl w = Some m) -> (forall a, In a (w_nodes w) -> an_deleting a = false) ->
+  exists k, (k <= S (length (unserved_nodes (drain po lab w))))%nat /\
+            settled po lab (Nat.iter k (round po lab) (drain po lab w)).
+Proof.
+  intros po lab ops Hwf Hco w Hs Hm Hd. apply converge_after_drain; try assumption.
+  - apply run_winv; [apply winv_init|exact Hwf].
+  - apply run_wk; [apply winv_init|intros m E; discriminate E|exact Hwf].
+  - apply run_coh; [apply coh_init|exact Hco].
+Qed.
+Print Assumptions C11_convergence_from_any_running_world.
